@@ -163,8 +163,10 @@ class FakeSocket(object):
             if kind == 'timeout':
                 raise _real_socket.timeout('timed out')
             raise InjectedError('injected failure in sendall')
-        w.pre_write_hook(st, data)
-        self._record_out(data)
+        if w.sched is not None:
+            w.sched.split_write(self, data)
+        else:
+            self._record_out(data)
 
     def _record_out(self, data):
         st = self._st
@@ -363,6 +365,8 @@ class FakePoll(object):
             # CPython rounds poll time-outs up to whole milliseconds
             deadline = w.now + int(math.ceil(timeout_ms)) * 1000
             deadline += w.wake_latency(kc)
+        if w.sched is not None:
+            return w.sched.blocking_poll(ready, deadline)
         while True:
             nxt = w.next_time()
             if nxt is None or (deadline is not None and nxt > deadline):
@@ -660,7 +664,7 @@ class World(object):
         self._rand_ctr = 0
         self.latency = scen.get('wake_latency') or {}
         self.env = dict(scen.get('environ') or {})
-        self.pre_write = None       # ThreadSim hook
+        self.sched = None           # ThreadSim scheduler (None in NetSim)
         self.exit_waits = []
         self.fault_marks = []
         self.keys_seen = []
@@ -759,10 +763,6 @@ class World(object):
         if n < avail:
             self.fired('short_read')
         return n
-
-    def pre_write_hook(self, st, data):
-        if self.pre_write is not None:
-            self.pre_write(st, data)
 
     # -- connect phase
     def getaddrinfo(self, host, port, family=0, type_=0, *a):
@@ -980,6 +980,21 @@ def _masking_key():
     return CURRENT.masking_key()
 
 
+class _ThreadingNS(object):
+    """lomond.session.threading: Lock() is the simulator's lock while a
+    ThreadSim scheduler is active, a real lock otherwise."""
+    import threading as _real
+
+    @staticmethod
+    def Lock():
+        w = CURRENT
+        if w is not None and w.sched is not None:
+            return w.sched.make_lock()
+        return _ThreadingNS._real.Lock()
+
+    Event = _real.Event
+
+
 def _random():
     return CURRENT.random()
 
@@ -1003,6 +1018,7 @@ def install():
     lomond.session.ssl = _SSLNS
     lomond.session.HAS_SNI = True
     lomond.session.time = _TimeNS
+    lomond.session.threading = _ThreadingNS
     lomond.events.time = _TimeNS
     lomond.selectors.select = _SelectNS
     lomond.session.WebsocketSession._selector_cls = \
